@@ -346,7 +346,7 @@ class Build:
             return r_slice(u, idx)
         if k == 'concat3':
             mid, last = (self.run(x, stage_prefix=stage + 'c')
-                         for x in refmodel.concat3_operands(op[1]))
+                         for x in refmodel.concat3_operands(op[1], op[2]))
             return r_concat([u, mid, last])
         if k in refmodel.NARY:
             raise Unsupported('n-ary operations are not evaluated lazily here')
